@@ -13,6 +13,13 @@ pairwise np.sum and exactly rounded (math.fsum) -- the inputs on which an
 implementation that sums the same numbers twice in different orders can
 disagree with itself.
 
+Scale families (everything in the property is scale-covariant): every multiset
+of length 1..3 with all gains x {1e-15, 1e-9, 1e9} and the noise x the same set
+(alike and independently), Pt and noise x {1e-12, 1e12}, Es in {1e-6, 1e6};
+a wide alphabet {1e-20, 1e-14, 1e-7, 1, 1e8, 1e16} (spreads up to 36 decades) x
+tiny/huge Pt, noise, Es; link-budget members (gains ~1e-13, thermal noise 1e-13).
+All tolerances are relative to the scale of the case.
+
 Relations checked on every evaluation (reference model written here):
   R1  shape / finiteness, input array not modified
   R2  P_i >= 0
@@ -26,6 +33,8 @@ Relations checked on every evaluation (reference model written here):
   R7  no competitor is better: every allocation of the simplex grid Pt*k/G and
       every pairwise transfer of power i->j has capacity <= capacity(P)
   R8  permutation equivariance against the sorted representative of the multiset
+  R9  scale covariance: doWF(c g, Pt, c N, Es) == doWF(g, Pt, N, Es);
+      doWF(g, a Pt, a N, Es) == a doWF(g, Pt, N, Es); doWF(g, Pt, N, e) == doWF(e g, Pt, N, 1)
 """
 import itertools
 import math
@@ -43,7 +52,10 @@ RULE = ("every ordered gain tuple of length 1..4 (thorough 1..5) over {1e-4,1e-2
         "x Pt{1e-3,0.3,1,10,1e3} x noise{1e-2,1,5} x Es{1,0.5,3}; plus for every multiset "
         "Pt at/just below/just above each switch-on boundary; plus generic gain vectors of "
         "length 1..12; plus gains 1..n, 0.1..0.1n (n<=13) and generic vectors of length 2..16 with Pt "
-        "within one ulp of every switch-on boundary (summed in 3 orders). Each is run through doWF and compared with a reference water-filling, "
+        "within one ulp of every switch-on boundary (summed in 3 orders); plus scale families: multisets of "
+        "length 1..3 with gains x{1e-15,1e-9,1e9} x noise x{1e-15,1e-9,1e9}, (Pt,noise) x{1e-12,1e12}, "
+        "Es{1e-6,1e6}, wide alphabet {1e-20,1e-14,1e-7,1,1e8,1e16} x Pt{1,3,1e-12,1e12} x noise{1,1e-14,"
+        "1e-13,1e9} x Es{1,1e-6,1e6}, link-budget vectors. Each is run through doWF and compared with a reference water-filling, "
         "a KKT certificate, the returned-level relation, every simplex-grid / pairwise-transfer "
         "competitor and the permuted run. Non-trivial: length>=2 and (gains not all equal or a "
         "channel switched off); distinct = (sorted gains, Pt, noise, Es)")
@@ -53,6 +65,11 @@ GAINS = (1.0, 0.5, 3.0, 1e-2, 1e3, 1e-4)
 PTS = (1.0, 0.3, 10.0, 1e-3, 1e3)
 NOISES = (1.0, 1e-2, 5.0)
 ESS = (1.0, 0.5, 3.0)
+WIDE = (1.0, 1e-14, 1e8, 1e-7, 1e16, 1e-20)
+WIDE_PTS = (1.0, 3.0, 1e-12, 1e12)
+WIDE_NOISES = (1.0, 1e-14, 1e-13, 1e9)
+WIDE_ESS = (1.0, 1e-6, 1e6)
+SCALES = (1e-15, 1e-9, 1e9)
 C_TOL = 256.0            # relations: |lhs-rhs| <= C_TOL * 2^-52 * scale
 C_CAP = 256.0            # capacity comparisons
 GRID = {1: 1, 2: 12, 3: 12, 4: 8, 5: 6}
@@ -87,17 +104,21 @@ def thresholds(g, N, Es):
 
 
 def ref_waterfilling(g, Pt, N, Es):
-    """(P, level, k_active): largest k such that filling the k best channels to
-    a common level costs exactly Pt with the level above the k-th threshold"""
+    """(P, level, k_active): the largest k such that filling the k best channels
+    to a common level costs exactly Pt.  Powers are computed WITHOUT forming
+    level - threshold (P_i = (Pt + sum_j (t_j - t_i)) / k over the k active
+    channels), so they stay relatively accurate when thresholds dwarf Pt."""
     t = thresholds(g, N, Es)
     order = sorted(range(len(t)), key=lambda i: t[i])
     ts = [t[i] for i in order]
     for k in range(len(ts), 0, -1):
-        level = math.fsum([Pt] + ts[:k]) / k
-        if level >= ts[k - 1] or k == 1:
+        if k == 1 or math.fsum([Pt] + [tj - ts[k - 1] for tj in ts[:k]]) >= 0.0:
             break
-    P = [max(0.0, level - ti) for ti in t]
-    return P, level, sum(1 for p in P if p > 0)
+    level = math.fsum([Pt] + ts[:k]) / k
+    P = [0.0] * len(t)
+    for r in range(k):
+        P[order[r]] = max(0.0, math.fsum([Pt] + [tj - ts[r] for tj in ts[:k]]) / k)
+    return P, level, k
 
 
 def capacity(P, g, N, Es):
@@ -114,6 +135,13 @@ def eval_case(chk, g, Pt, N, Es, case, grid=True, canon=None):
     n = len(g)
     garr = np.array(g, dtype=float)
     keep = garr.copy()
+    # reference model and non-vacuity outcome first (oracle side, before the library runs)
+    t = np.array(thresholds(g, N, Es))
+    refP, level, kact = ref_waterfilling(g, Pt, N, Es)
+    refP = np.array(refP)
+    chk.outcome("active_channels", (n, int(kact)))
+    if case.get("kind") in ("spread", "scaled", "generic_scaled", "link_budget"):
+        chk.outcome("scale_family_active_channels", (case.get("kind"), n, int(kact)))
     chk.count("eval_doWF")
     P, mu = doWF(garr, Pt, N, Es)
     P = np.asarray(P)
@@ -125,14 +153,11 @@ def eval_case(chk, g, Pt, N, Es, case, grid=True, canon=None):
     if not np.array_equal(garr, keep):
         chk.fail(("doWF", "input_modified"), case, observed=garr, expected=keep)
     mu = float(mu)
-    t = np.array(thresholds(g, N, Es))
-    refP, level, kact = ref_waterfilling(g, Pt, N, Es)
-    refP = np.array(refP)
     active = P > 0
     # scale of the float relations: the largest quantity that enters a subtraction
-    sc = max(Pt, level, float(np.max(t[refP > 0])))
+    # (every threshold of an active channel is <= level)
+    sc = max(Pt, level)
     tol = C_TOL * EPS * sc
-    chk.outcome("active_channels", (n, int(kact)))
     # R2
     if np.any(P < 0):
         i = int(np.argmin(P))
@@ -209,7 +234,7 @@ def eval_case(chk, g, Pt, N, Es, case, grid=True, canon=None):
             chk.fail(("doWF", "permutation", "water_level_changes"), case, observed=mu, expected=cmu)
     if n >= 2 and (kact < n or len(set(g)) > 1):
         chk.nontriv((tuple(sorted(g)), Pt, N, Es))
-    return P, mu
+    return P, mu, tol
 
 
 def run_multiset(chk, ms, Pt, N, Es, tag):
@@ -233,6 +258,52 @@ def run_multiset(chk, ms, Pt, N, Es, tag):
         with chk.guard(("doWF",), case):
             eval_case(chk, g, Pt, N, Es, case, grid=(n <= 3),
                       canon=None if canon is None else (canon[0], canon[1], perm))
+
+
+def run_scaled(chk, ms, Pt, N, Es):
+    """every global rescaling of one base problem: each rescaled input goes through
+    R1-R8 on its own (run_multiset) and, where the rescaling leaves the
+    problem equivalent, R9 against the base run"""
+    base_case = {"kind": "scaled", "gains": list(ms), "Pt": Pt, "noise": N, "Es": Es}
+    base = None
+    with chk.guard(("doWF",), base_case):
+        base = eval_case(chk, ms, Pt, N, Es, base_case, grid=False)
+    variants = []
+    for cg in SCALES:
+        for cn in SCALES:
+            variants.append(("gains_x_c,noise_x_c" if cg == cn else None,
+                             tuple(v * cg for v in ms), Pt, N * cn, Es, 1.0, cg, cn))
+    for a in (1e-12, 1e12):
+        variants.append(("Pt_x_a,noise_x_a", ms, Pt * a, N * a, Es, a, a, a))
+    for e in (1e-6, 1e6):
+        variants.append(("Es_folded_into_gains", tuple(v * e for v in ms), Pt, N, 1.0, 1.0, e, 1.0))
+        variants.append((None, ms, Pt, N, e, 1.0, 1.0, e))
+    for rel, g2, Pt2, N2, Es2, a, c1, c2 in variants:
+        run_multiset(chk, g2, Pt2, N2, Es2, "scaled")
+        if rel is None or base is None:
+            continue
+        # for "Es_folded_into_gains" the base is doWF(ms, Pt, N, e)
+        case = {"kind": "scaled", "gains": list(g2), "Pt": Pt2, "noise": N2, "Es": Es2,
+                "base": {"gains": list(ms), "Pt": Pt, "noise": N,
+                         "Es": (c1 if rel == "Es_folded_into_gains" else Es)}}
+        with chk.guard(("doWF", "scale_covariance"), case):
+            check_covariance(chk, rel, case, a)
+
+
+def check_covariance(chk, rel, case, a):
+    from pyphysim.comm.waterfilling import doWF
+    b = case["base"]
+    chk.count("eval_doWF", 2)
+    P0, mu0 = doWF(np.array(b["gains"], dtype=float), b["Pt"], b["noise"], b["Es"])
+    P1, mu1 = doWF(np.array(case["gains"], dtype=float), case["Pt"], case["noise"], case["Es"])
+    _, level, _ = ref_waterfilling(b["gains"], b["Pt"], b["noise"], b["Es"])
+    tol = 4 * C_TOL * EPS * max(b["Pt"], level) * a
+    if np.shape(P1) != np.shape(P0) or float(np.max(np.abs(np.asarray(P1) - a * np.asarray(P0)))) > tol:
+        chk.fail(("doWF", "scale_covariance", rel, "allocation"), case, observed=P1,
+                 expected=a * np.asarray(P0))
+    if abs(float(mu1) - a * float(mu0)) > 4 * C_TOL * EPS * max(abs(a * float(mu0)), a * level):
+        chk.fail(("doWF", "scale_covariance", rel, "water_level"), case, observed=float(mu1),
+                 expected=a * float(mu0))
 
 
 def boundary_powers(ms, N, Es):
@@ -282,6 +353,10 @@ def prelude_jobs():
             for N in NOISES:
                 for Es in ESS:
                     yield ("alphabet", ms, Pt, N, Es)
+    # link-budget scale: path gains ~1e-13 with thermal-scale noise; 14-decade spread
+    yield ("link_budget", (1.0, 1e-14), 3.0, 1e-14, 1.0)
+    yield ("link_budget", (4e-13, 2.5e-13, 6e-14, 3e-15), 1.0, 1e-13, 1.0)
+    yield ("link_budget", (2e-12, 5e-13, 1e-13), 0.2, 4e-15, 1.0)
     # tidy gain vectors 1..n and 0.1..0.1n at the ulp-level switch-on boundaries
     for n in range(2, 14):
         for g in (tuple(float(k) for k in range(1, n + 1)),
@@ -315,6 +390,28 @@ def all_jobs(tier):
                         yield ("generic", g, Pt, N, Es)
                 for PtB in boundary_powers(g, 1.0, 0.5)[:6]:
                     yield ("generic_boundary", g, PtB, 1.0, 0.5)
+    # ---- scale families -------------------------------------------------
+    wmax = 4 if tier == "thorough" else 3
+    for n in range(1, wmax + 1):
+        for ms in itertools.combinations_with_replacement(WIDE, n):
+            for Pt in WIDE_PTS:
+                for N in WIDE_NOISES:
+                    for Es in WIDE_ESS:
+                        yield ("spread", ms, Pt, N, Es)
+    for n in range(1, 4):
+        for ms in itertools.combinations_with_replacement(GAINS, n):
+            for Pt in (1.0, 0.3, 1e3):
+                for N in (1.0, 1e-2):
+                    for Es in (1.0, 0.5):
+                        yield ("scaled", ms, Pt, N, Es)
+    S3 = 16 if tier == "thorough" else 6
+    for s in range(S3):
+        for n in (2, 4, 6):
+            g0 = generic_gains(2000 + s, n)
+            for e, e2 in ((-13, -13), (-15, -9), (9, -13), (-9, 9), (-15, -15)):
+                g = tuple(v * 10.0 ** e for v in g0)
+                for Pt in (1.0, 1e-6, 1e6):
+                    yield ("generic_scaled", g, Pt, 10.0 ** e2, 1.0)
     S2 = 12 if tier == "thorough" else 4
     for s in range(S2):
         for n in (2, 5, 7, 8, 9, 12, 16):
@@ -326,8 +423,10 @@ def all_jobs(tier):
 
 def run_job(chk, job):
     kind, g, Pt, N, Es = job
-    if kind in ("alphabet", "boundary"):
+    if kind in ("alphabet", "boundary", "spread", "link_budget"):
         run_multiset(chk, g, Pt, N, Es, kind)
+    elif kind == "scaled":
+        run_scaled(chk, g, Pt, N, Es)
     else:
         n = len(g)
         case = {"kind": kind, "gains": list(g), "Pt": Pt, "noise": N, "Es": Es}
@@ -389,6 +488,7 @@ def main(chk):
         from vmc.report import Broken
         raise Broken("vacuous: (length, active) pairs never reached: %r" % missing)
     chk.require_outcomes("active_channels", nmax * (nmax + 1) // 2)
+    chk.require_outcomes("scale_family_active_channels", 12)
 
 
 def replay(case, chk):
@@ -396,6 +496,14 @@ def replay(case, chk):
     Pt, N, Es = float(case["Pt"]), float(case["noise"]), float(case["Es"])
     if case.get("kind") == "defaults":
         defaults_case(chk)
+        return
+    if "base" in case:
+        b = case["base"]
+        a = float(case["Pt"]) / float(b["Pt"])
+        rel = ("Pt_x_a,noise_x_a" if a != 1.0 else
+               ("Es_folded_into_gains" if float(b["Es"]) != float(case["Es"]) else "gains_x_c,noise_x_c"))
+        with chk.guard(("doWF", "scale_covariance"), case):
+            check_covariance(chk, rel, case, a)
         return
     with chk.guard(("doWF",), case):
         sg = case.get("sorted_gains")
